@@ -19,6 +19,9 @@ mkdir -p "$SCR/mod/simrt" "$SCR/mod/simfs" "$SCR/mod/simharness"
 cp "$V"/sim/simrt/*.go "$V"/sim/simrt/*.s "$SCR/mod/simrt/"
 cp "$V"/sim/simfs/*.go "$SCR/mod/simfs/"
 cp "$V"/sim/harness/*.go "$SCR/mod/simharness/"
+if [ "$LEVEL" -ge 2 ]; then
+  printf 'package simharness\n\nfunc init() { level2Build = true }\n' > "$SCR/mod/simharness/level2_gen.go"
+fi
 # 3. runtime overlay: seeded select + goroutine id
 SEL="$GOROOT_/src/runtime/select.go"
 N=$(grep -c 'j := cheaprandn(uint32(norder + 1))' "$SEL" || true)
